@@ -59,7 +59,22 @@ func runC17(c *hc.Ctx) error {
 	if len(ps) > c.N(8000, 60000) {
 		corrEvery = len(ps)/c.N(8000, 60000) + 1
 	}
+	// keys must not depend on what else the process has done: a shallow and a deep index are built first (and a shallow one
+	// again half-way), as a process that works on several tile matrix sets would
+	for _, spec := range []struct {
+		name string
+		id   int
+	}{{"NetherlandsRDNewQuad", 0}, {"WebMercatorQuad", 20}, {"NetherlandsRDNewQuad", 3}} {
+		if t, err := loadSet(spec.name); err == nil {
+			_, _ = pointindex.FromTileMatrixSet(t, spec.id)
+		}
+	}
 	for i, p := range ps {
+		if i == len(ps)/2 {
+			if t, err := loadSet("NetherlandsRDNewQuad"); err == nil {
+				_, _ = pointindex.FromTileMatrixSet(t, 1)
+			}
+		}
 		c.Sum.Evaluations++
 		z, ok := morton.ToZ(uint(p.x), uint(p.y))
 		fits := p.x < 1<<32 && p.y < 1<<32
